@@ -318,15 +318,29 @@ pub proof fn lemma_remove_enum(w: World, a: Address, r: Symbol)
 // ---- exact successor states of the public role operations ----
 
 // ---- two-step transfer: exact successor states ----
+/// the sibling temporary key under which the declared `live_until_ledger` of the pending offer at `k` is recorded
+pub open spec fn xk<K: ToSV>(k: K) -> (Val, Symbol) {
+    (Val { v: Ghost(k.sv()) }, Symbol { code: Ghost(str_code("live_til"@)) })
+}
 pub open spec fn offer_post<K: ToSV>(w: World, k: K, new: Address, live: u32) -> World {
-    if live == 0 { tdel(w, k) } else { text(tset(w, k, new.sv()), k, (live - w.ledger_seq) as u32, (live - w.ledger_seq) as u32) }
+    if live == 0 { tdel(tdel(w, k), xk(k)) } else {
+        let lf = (live - w.ledger_seq) as u32;
+        let w1 = text(tset(w, k, new.sv()), k, lf, lf);
+        text(tset(w1, xk(k), live.sv()), xk(k), lf, lf)
+    }
 }
 pub open spec fn offer_guard<K: ToSV>(w: World, k: K, new: Address, live: u32) -> bool {
     if live == 0 { dec::<Address>(tget(w, k)) == Some(new) } else { w.ledger_seq <= live && live as int <= w.max_live_until() }
 }
+/// the declared expiry recorded for the pending offer at `k` (None: no record, e.g. an entry written by older code)
+pub open spec fn declared_expiry<K: ToSV>(w: World, k: K) -> Option<u32> { dec::<u32>(tget(w, xk(k))) }
+pub open spec fn accept_guard<P: ToSV>(w: World, pending: P) -> bool {
+    &&& tget(w, pending).is_some()
+    &&& declared_expiry(w, pending).is_some() ==> declared_expiry(w, pending).unwrap() >= w.ledger_seq
+}
 pub open spec fn accept_post<K: ToSV, P: ToSV>(w: World, active: K, pending: P) -> World {
     let p = dec::<Address>(tget(w, pending)).unwrap();
-    iset(tdel(w_auth(w, p), pending), active, p.sv())
+    iset(tdel(tdel(w_auth(w, p), pending), xk(pending)), active, p.sv())
 }
 
 pub open spec fn grant_na_post(w: World, account: Address, role: Symbol, caller: Address) -> World {
